@@ -13,8 +13,8 @@ let obj_str = function
 let recmode = ref 0
 let rec_str (r : record) =
   match !recmode with
-  | 0 -> Printf.sprintf "%s.%s.%s.%s.%s.%s.%s.%s" (string_of_n r.r_run) (sz (rs_code r.r_state)) (sz r.r_status) (sz r.r_ver)
-           (obj_str r.r_obj) (sz r.r_created) (sz r.r_updated) (if r.r_desc = z_of_int (-999999) then "?" else sz r.r_desc)
+  | 0 -> Printf.sprintf "%s.%s.%s.%s.%s.%s.%s.%s.%s" (string_of_n r.r_run) (sz (rs_code r.r_state)) (sz r.r_status) (sz r.r_ver)
+           (obj_str r.r_obj) (sz r.r_created) (sz r.r_updated) (if r.r_desc = z_of_int (-999999) then "?" else sz r.r_desc) (string_of_n r.r_fid)
   | 1 -> Printf.sprintf "%s.%s.%s.%s.%s" (string_of_n r.r_run) (sz (rs_code r.r_state)) (sz r.r_status) (sz r.r_ver) (obj_str r.r_obj)
   | 2 -> Printf.sprintf "%s.%s.%s.%s" (string_of_n r.r_run) (sz (rs_code r.r_state)) (sz r.r_status) (sz r.r_ver)
   | _ -> Printf.sprintf "%s.%s.%s.%s.%s.%s" (string_of_n r.r_run) (sz (rs_code r.r_state)) (sz r.r_status) (sz r.r_ver) (obj_str r.r_obj) (sz r.r_updated)
@@ -76,9 +76,10 @@ let keep (t : tok) : bool =
   | "C15", (TStore _ | TLookup (KLK, _, _, _) | TAck _) -> true
   | "C15", TUser (u, _, _, _, _) -> (match u with UFDelete -> true | _ -> false)
   | "C16", (TStore _ | TUser _) -> true
+  | "C20", (TStore _ | TUser _ | TApi _ | TLookup (KLT, _, _, _) | TCall ((KTW | KAW), _, _, _)) -> true
   | _, _ -> false
 let () = recmode := (match prop with
-  | "" | "C16" -> 0
+  | "" | "C16" | "C20" -> 0
   | "C03" | "C05" | "C06" | "C14" -> 2
   | "C13" -> 3
   | _ -> 1)
